@@ -53,3 +53,12 @@ def register(check):
           floors={"quick": {"termination_runs": 500, "fault_mid_traffic": 250, "fault_at_quiescence": 50, "terminal_results_checked": 3000, "leak_check_done": 500},
                   "thorough": {"termination_runs": 3500, "fault_mid_traffic": 1500, "terminal_results_checked": 20000}},
           assumptions=COMMON_ASSUMPTIONS + ["'nothing hangs' is decided as: no operation open at quiescence after the cause struck and one hour of virtual time passed"])
+    check("C07",
+          level="fault_enumeration",
+          rule="fault injection by enumeration: each RPC of the every-phase workload plus three RPCs that complete normally (server-stream with trailers, unary with trailers, client-stream with an error status) is cancelled, or has its deadline expire, "
+               "after exactly k delivered frames (gated carrier; quick: every 5th k in 0..80, thorough: every k) x {forward, reverse} x {flow control, revision zero}; the cancel frame and the peer's frames stay in flight until the caller side has been judged; "
+               "non-trivial = a terminal outcome of the target was classified; distinct = distinct (target, how, k, cfg, observed op shape)",
+          nontrivial="cancel_outcomes_checked",
+          floors={"quick": {"cancel_runs": 1200, "cancel_in_flight": 700, "cancel_after_completion": 20, "cancel_won_race": 500, "cancel_lost_race_normal_outcome": 20, "table_checks": 1200},
+                  "thorough": {"cancel_runs": 6000, "cancel_in_flight": 3500, "cancel_won_race": 2500, "cancel_lost_race_normal_outcome": 100}},
+          assumptions=COMMON_ASSUMPTIONS)
